@@ -299,7 +299,7 @@ FindStart(s, c, i) ==
       setAll(M) == IF \E m \in M : fm(m) = 0 THEN [s EXCEPT !.err = "start:IndexError"]
                    ELSE [s EXCEPT !.startOf = [j \in 1..NM(c) |-> IF (j - 1) \in M THEN fm(j - 1) ELSE s.startOf[j]]]
   IN IF sp.hasIdx THEN
-        IF ~Has("startIdxIgnoresName") /\ Contradictory(c, sp) THEN s         \* names no molecule
+        IF ~Has("startIdxIgnoresName") /\ Contradictory(c, sp) THEN [s EXCEPT !.err = "start:OSError"]   \* names no molecule: rejected
         ELSE IF sp.idx >= NM(c) THEN [s EXCEPT !.err = "start:IndexError"]
         ELSE setAll({sp.idx})
      ELSE IF ~sp.hasMol THEN
@@ -391,11 +391,13 @@ Next == \/ ASplitMolecule \/ AParseLine \/ AFinalize \/ ASamplePers \/ ASetRestr
 (* ------------------------------------------------------------------ *)
 Finished == pc > Len(steps)
 
-\* a -lig option that cannot be honoured must be rejected; one that is contradictory (name#index naming no molecule)
-\* or whose ligand has neither name nor index may be rejected; every other case of the family must run without an error
+\* a -lig option that cannot be honoured must be rejected; a specification that is contradictory (name#index naming no
+\* molecule: it selects nothing) or a ligand with neither name nor index may be rejected or may select nothing; every other
+\* case must run without an error
 MustReject(c) == LigInfeasible(c)
-MayReject(c) == \E i \in 1..Len(c.lig) : \/ Contradictory(c, c.lig[i].h) \/ Contradictory(c, c.lig[i].l)
-                                        \/ ~(c.lig[i].l.hasMol \/ c.lig[i].l.hasIdx)
+MayReject(c) == \/ \E i \in 1..Len(c.lig) : \/ Contradictory(c, c.lig[i].h) \/ Contradictory(c, c.lig[i].l)
+                                           \/ ~(c.lig[i].l.hasMol \/ c.lig[i].l.hasIdx)
+                \/ \E i \in 1..Len(c.start) : Contradictory(c, c.start[i])
 FamilyInDomain == (pc = 1) => InDomain(case)        \* the instance families stay inside the domain
 ErrOK == Done => IF MustReject(case) THEN st.err # ""
                  ELSE IF MayReject(case) THEN TRUE ELSE st.err = ""
